@@ -94,6 +94,9 @@ func (n *Node) String() string {
 // Parse returns a node given a pretty printed representation of a Node or a BlankNode.
 func Parse(s string) (*Node, error) {
 	raw := strings.TrimSpace(s)
+	if raw == "" {
+		return nil, fmt.Errorf("node.Parse: cannot parse an empty string into a node; provided string %q", s)
+	}
 	switch raw[0] {
 	case slash:
 		idx := strings.Index(raw, "<")
@@ -113,6 +116,9 @@ func Parse(s string) (*Node, error) {
 		}
 		return NewNode(t, id), nil
 	case underscore:
+		if len(raw) < 2 {
+			return nil, fmt.Errorf("node.Parse: blank node representation too short in %q", raw)
+		}
 		id, err := NewID(raw[2:])
 		if err != nil {
 			return nil, fmt.Errorf("node.Parse: invalid ID in %q, %v", raw, err)
